@@ -178,8 +178,17 @@ def slots(ctx):
             if gpos is None or k is None:
                 ctx.undecided(rule, fs, c, construct=f"{fs.name}:stress=d(L)/d(gradU)", detail=f"value_and_grad(L, {k}); position of gradU in L: {gpos}")
                 continue
-            if not from_adapter and k != gpos:
-                ctx.undecided(rule, fs, c, construct=f"{fs.name}:stress=d(L)/d(gradU)", detail=f"value_and_grad of a function that is not visibly a Lagrangian density, w.r.t. argument {k}")
+            if not from_adapter:
+                # not a Lagrangian made by the adapter.  The material interface itself -- model.compute_energy_density(dispGrad, state, dt) -- takes
+                # the displacement gradient first; anything else is not understood (the position of gradU in it is unknown)
+                if isinstance(src_call, ast.Attribute) and src_call.attr == "compute_energy_density" and k is not None:
+                    n += 1
+                    ctx.decide(rule, k == 0, fs, c, construct=f"{fs.name}:stress=d(W)/d(dispGrad)",
+                               detail=f"value_and_grad({src(src_call)}, {k}): the material energy density takes the displacement gradient as argument 0",
+                               bad_detail=f"{fs.name}: `{src(c)[:90]}` differentiates the material energy density w.r.t. argument {k}; the displacement gradient is "
+                                          f"argument 0 of compute_energy_density(dispGrad, state, dt) (argument 1 is the internal state), so the reported stress is not dW/d(grad u)")
+                else:
+                    ctx.undecided(rule, fs, c, construct=f"{fs.name}:stress=d(L)/d(gradU)", detail=f"value_and_grad of a function that is not visibly a Lagrangian density, w.r.t. argument {k}")
                 continue
             n += 1
             ctx.decide(rule, k == gpos, fs, c, construct=f"{fs.name}:stress=d(L)/d(gradU)",
